@@ -23,7 +23,7 @@ func main() { hk.Main("C03", runC03, nil) }
 
 func runC03(r *hk.Run) {
 	log.SetOutput(io.Discard) // "Unsolicited response received on idle HTTP channel"
-	r.Header = "From ReqV Require Import Model.C03Run."
+	r.Header = "From ReqV Require Import Model.C03Run.\nFrom Coq Require Import Uint63."
 	r.CaseType = "c03_case"
 	r.CheckFn = "c03_check"
 	r.ShardSize = 12
